@@ -66,9 +66,11 @@ def strip_lean_comments(src):
     return src
 
 def theorems_of(pid):
-    p = os.path.join(LEAN, "RitiModel", "Props", f"{pid}.lean")
-    src = strip_lean_comments(open(p, encoding="utf-8").read())
-    return [f"Riti.{pid}.{m}" for m in re.findall(r'^\s*theorem\s+([^\s\(\[\{:]+)', src, flags=re.M)]
+    out = []
+    for mod, ns in ((os.path.join("Props", f"{pid}.lean"), pid), ("Tie.lean", "Tie")):
+        src = strip_lean_comments(open(os.path.join(LEAN, "RitiModel", mod), encoding="utf-8").read())
+        out += [f"Riti.{ns}.{m}" for m in re.findall(r'^\s*theorem\s+([^\s\(\[\{:]+)', src, flags=re.M)]
+    return out
 
 def forbidden_tokens():
     """sorry/admit/axiom/native_decide/… outside comments, in every .lean file of the project"""
@@ -85,7 +87,7 @@ def audit(pid):
     ths = theorems_of(pid)
     tmp = os.path.join(OUT, pid, "audit.lean")
     with open(tmp, "w") as f:
-        f.write(f"import RitiModel.Props.{pid}\n")
+        f.write(f"import RitiModel.Props.{pid}\nimport RitiModel.Tie\n")
         for t in ths: f.write(f"#print axioms {t}\n")
     rc, out = sh(["lake", "env", "lean", tmp], cwd=LEAN, timeout=900)
     res = []; problems = []
@@ -157,10 +159,10 @@ def main():
         try: tr = json.loads(out.strip().splitlines()[0])
         except Exception: tr = {"changed": [], "failed": [{"item": "translator", "why": out[-300:]}]}
         for f in tr.get("failed", []):
-            if f["item"] in cfg["items"] or f["item"] == "translator":
+            if f["item"] in cfg["items"] or f["item"] in ("translator", "logicconsts", "panicsites"):
                 broken.append(f"translator:{f['item']} ({f['why']})")
         log.append(f"translate: changed={tr.get('changed')} failed={[f['item'] for f in tr.get('failed', [])]}")
-        rc, out = sh(["lake", "build", f"RitiModel.Props.{pid}", "driver"], cwd=LEAN, timeout=3000)
+        rc, out = sh(["lake", "build", f"RitiModel.Props.{pid}", "RitiModel.Tie", "driver"], cwd=LEAN, timeout=3000)
         theorems = []
         if rc != 0:
             errs = [l for l in out.splitlines() if l.startswith("error:")]
